@@ -1,6 +1,7 @@
 import Cdecao.Model.Node
-/-! Model of io.rs `format_assignment` and of the simple-format writer's `assignment` array.
-    Core only. -/
+/-! Model of io.rs `format_assignment`. (The simple-format writer's `assignment` array is serde's
+    serialisation of the incumbent's list itself — `Props.C14_array` speaks about that list; the
+    file is judged directly by the cli-simple stream, `write_input_data` is not modelled.) Core only. -/
 namespace LM
 open N2
 
